@@ -1,0 +1,20 @@
+//go:build !verif
+
+// Package verifhook provides observation points for external verification
+// harnesses. Without the "verif" build tag every entry point is an empty
+// function and has no effect.
+package verifhook
+
+import "net"
+
+// Enabled reports whether hooks are compiled in.
+const Enabled = false
+
+// Fire reports that a named site was reached.
+func Fire(name string, args ...interface{}) {}
+
+// FireErr reports that a named site was reached and lets a handler inject an error.
+func FireErr(name string, args ...interface{}) error { return nil }
+
+// WrapConn lets a handler wrap a connection dialed to a node.
+func WrapConn(nodeID uint64, conn net.Conn) net.Conn { return conn }
